@@ -339,7 +339,14 @@ class AppCfgMgr:
                 # This cache entry has its container: nothing to add.
                 cached.pop(appname, None)
 
-        for appname in six.iterkeys(cached):
+        for appname, container in six.iteritems(cached):
+            if container in in_cleanup:
+                # Its container is still being cleaned up (directory already
+                # removed, cleanup link not yet): configuring it now would
+                # revive that link and start a finished container again.
+                _LOGGER.info('Ignoring %s as it is in cleanup', container)
+                continue
+
             if self._configure(appname):
                 _LOGGER.debug('Added new app %r', appname)
 
